@@ -110,11 +110,17 @@ func (e *Exec) caseReady(self *thread, c selCase) bool {
 		if len(c.ch.buf) < c.ch.cap {
 			return true
 		}
+		if c.ch.cap > 0 {
+			return false // full buffered channel: a waiting receiver is merely not scheduled yet
+		}
 		t, _ := e.partner(self, c.ch, false)
 		return t != nil
 	}
 	if len(c.ch.buf) > 0 || c.ch.closed {
 		return true
+	}
+	if c.ch.cap > 0 {
+		return false // empty buffered channel: a waiting sender is merely not scheduled yet
 	}
 	t, _ := e.partner(self, c.ch, true)
 	return t != nil
@@ -126,8 +132,8 @@ func (e *Exec) doCase(self *thread, c selCase) (val any, ok bool) {
 		if s.closed {
 			panic("send on closed channel")
 		}
-		// hand directly to a parked receiver if the buffer is empty
-		if len(s.buf) == 0 {
+		// unbuffered: hand directly to a parked receiver
+		if s.cap == 0 {
 			if t, i := e.partner(self, s, false); t != nil {
 				t.pend.idx, t.pend.val, t.pend.ok = i, c.val, true
 				t.completed = true
@@ -151,11 +157,13 @@ func (e *Exec) doCase(self *thread, c selCase) (val any, ok bool) {
 		}
 		return val, true
 	}
-	if t, i := e.partner(self, s, true); t != nil {
-		val = t.pend.cases[i].val
-		t.pend.idx, t.pend.ok = i, true
-		t.completed = true
-		return val, true
+	if s.cap == 0 {
+		if t, i := e.partner(self, s, true); t != nil {
+			val = t.pend.cases[i].val
+			t.pend.idx, t.pend.ok = i, true
+			t.completed = true
+			return val, true
+		}
 	}
 	if s.closed {
 		return nil, false
